@@ -10,6 +10,13 @@ open ShpanVerif.Model.Align
 
 variable {β : Type}
 
+instance {α : Type} [DecidableEq α] : DecidableEq (Except Err α) := fun a b =>
+  match a, b with
+  | .ok x, .ok y => if h : x = y then isTrue (by rw [h]) else isFalse (by intro e; cases e; exact h rfl)
+  | .error x, .error y => if h : x = y then isTrue (by rw [h]) else isFalse (by intro e; cases e; exact h rfl)
+  | .ok _, .error _ => isFalse (by intro e; cases e)
+  | .error _, .ok _ => isFalse (by intro e; cases e)
+
 /-! ## List-level specification -/
 
 /-- Output record at boundary `b`. -/
@@ -356,19 +363,19 @@ theorem cemit_map (s : CState T C) :
     simp only [cemit, CState.map, Option.map_some, hp]
     rw [hfac]
     cases hfr : fac curr (cpull cls cmp curr ⟨some y, curr, last, src⟩).1 last with
-    | error e => simp [CState.map]
+    | error e => simp
     | ok o =>
       simp only
       generalize hs1 : (cpull cls cmp curr ⟨some y, curr, last, src⟩).2 = s1
       rcases s1 with ⟨ni1, c1, l1, src1⟩
       cases ni1 with
-      | none => simp [CState.map]
+      | none => simp
       | some n =>
         simp only [Option.map_some, hcls]
         rw [cskip_map f cls cls' cmp hcls]
         cases cskip cls cmp curr (cls n) (cmp curr (cls n)) n l1 src1 with
-        | error e => simp [CState.map]
-        | ok q => rcases q with ⟨a, b, c, d⟩; simp [CState.map]
+        | error e => simp
+        | ok q => rcases q with ⟨a, b, c, d⟩; simp
 
 theorem ccollect_map :
     ∀ (fuel : Nat) (s : CState T C),
